@@ -18,13 +18,38 @@ import (
 // C08 — bounds are the tight per-dimension box for every geometry and layout mix.
 
 type c08Case struct {
-	Mode   string      `json:"mode"` // geom | extend | overlaps
+	Mode   string      `json:"mode"` // geom | extend | overlaps | overlaps-narrow
 	G      *ref.G      `json:"g,omitempty"`
 	Start  geom.Layout `json:"start,omitempty"`
 	Ops    []int       `json:"ops,omitempty"`
 	BoxA   []ref.F     `json:"box_a,omitempty"`
 	BoxB   []ref.F     `json:"box_b,omitempty"`
 	Layout geom.Layout `json:"layout,omitempty"`
+	// overlaps-narrow: the boxes have layouts LA / LB (wider than the query layout Layout)
+	LA geom.Layout `json:"layout_a,omitempty"`
+	LB geom.Layout `json:"layout_b,omitempty"`
+}
+
+// c08LiveQuery: Bounds() of the live object against the fold over the model as it is now. The
+// returned box belongs to the caller: it is extended here, which must not show in a later answer.
+func c08LiveQuery(t geom.T, m *ref.G, final bool) string {
+	b := t.Bounds()
+	if !final {
+		if b.Layout() != geom.NoLayout {
+			far := make([]float64, b.Layout().Stride())
+			for i := range far {
+				far[i] = 1e9 + float64(i)
+			}
+			b.Extend(geom.NewPointFlat(b.Layout(), far))
+		}
+		return ""
+	}
+	acc := dimAcc{}
+	foldModel(m, acc)
+	if d := compareBounds(b, acc); d != "" {
+		return "Bounds() does not match the current coordinates: " + d
+	}
+	return isEmptyOracle(b, acc)
 }
 
 func init() {
@@ -32,7 +57,13 @@ func init() {
 		ID: "C08", Level: "model_checking",
 		Rule: "(a) every geometry of U (6 layouts, non-monotonic values) and every collection of 0..3 members over an 8-member menu (mixed layouts, empty members, nested and empty nested collections): Bounds() per semantic dimension vs reference fold, IsEmpty, Bounds.Polygon, GeoJSON bbox; (b) BFS over Extend histories (depth <=4 quick, <=5 thorough) from NewBounds(l), l in {NoLayout,XY,XYZ,XYM,XYZM}, alphabet = 1-point, 2-point and empty geometry per layout: state = (layout, min bits, max bits); every state compared per semantic dimension with the fold over the multiset and with every other history reaching the same multiset; (c) Overlaps/OverlapsPoint on all pairs of boxes with interval endpoints in {0..3} (2D) / {0..2} (3D) incl. empty intervals vs closed-interval arithmetic",
 		Run:    c08Run,
-		Replay: func(c *engine.Ctx, kind string, raw json.RawMessage) { c08Exec(c, decodeCase[c08Case](raw), nil) },
+		Replay: func(c *engine.Ctx, kind string, raw json.RawMessage) {
+			if kind == "c08-history" {
+				replayLive(c, kind, "history", decodeCase[liveCase](raw), c08LiveQuery)
+				return
+			}
+			c08Exec(c, decodeCase[c08Case](raw), nil)
+		},
 		Assumptions: []string{
 			"No NaN ordinates (per the quantifier); Layout(n>4) only for single geometries, not in Extend mixes",
 			"The result layout of Extend is not prescribed; only that every dimension that received data is present, located through ZIndex/MIndex",
@@ -260,6 +291,58 @@ func c08Exec(c *engine.Ctx, cs c08Case, onState func(multiset, key string)) {
 			sort.Ints(ms)
 			onState(fmt.Sprint(cs.Start, ms), bStateKey(b))
 		}
+	case "overlaps-narrow":
+		// boxes of (possibly) wider layouts than the query layout: only the dimensions of the
+		// query layout take part, whatever the extra dimensions hold (data, or nothing at all)
+		q := cs.Layout
+		n := q.Stride()
+		mk := func(l geom.Layout, v []ref.F) *geom.Bounds {
+			args := make([]float64, len(v))
+			for i, x := range v {
+				args[i] = float64(x)
+			}
+			return geom.NewBounds(l).Set(args...)
+		}
+		sa, sb := cs.LA.Stride(), cs.LB.Stride()
+		a, b := mk(cs.LA, cs.BoxA), mk(cs.LB, cs.BoxB)
+		want := true
+		for i := 0; i < n; i++ {
+			alo, ahi, blo, bhi := float64(cs.BoxA[i]), float64(cs.BoxA[i+sa]), float64(cs.BoxB[i]), float64(cs.BoxB[i+sb])
+			if alo > ahi || blo > bhi || math.Max(alo, blo) > math.Min(ahi, bhi) {
+				want = false
+			}
+		}
+		var got bool
+		if p, _ := engine.Guard(func() { got = a.Overlaps(q, b) }); p != nil {
+			c.Violate(fmt.Sprintf("overlaps-narrow/%s/panic", q), fmt.Sprintf("Overlaps(%s) of a %s box %v and a %s box %v panicked: %v", q, cs.LA, cs.BoxA, cs.LB, cs.BoxB, p), "c08", cs)
+			return
+		}
+		if got != want {
+			c.Violate(fmt.Sprintf("overlaps-narrow/%s", q), fmt.Sprintf("Overlaps(%s) of a %s box %v and a %s box %v = %v, closed-interval arithmetic on the %d query dimensions says %v", q, cs.LA, cs.BoxA, cs.LB, cs.BoxB, got, n, want), "c08", cs)
+			return
+		}
+		pt := make(geom.Coord, n)
+		ptOK := true
+		for i := 0; i < n; i++ {
+			pt[i] = float64(cs.BoxB[i])
+			if math.IsInf(pt[i], 0) {
+				ptOK = false
+			}
+		}
+		if ptOK {
+			wantP := true
+			for i := 0; i < n; i++ {
+				if !(float64(cs.BoxA[i]) <= pt[i] && pt[i] <= float64(cs.BoxA[i+sa])) {
+					wantP = false
+				}
+			}
+			if got := a.OverlapsPoint(q, pt); got != wantP {
+				c.Violate(fmt.Sprintf("overlapspoint-narrow/%s", q), fmt.Sprintf("OverlapsPoint(%s, %v) on a %s box %v = %v want %v", q, pt, cs.LA, cs.BoxA, got, wantP), "c08", cs)
+				return
+			}
+		}
+		c.Count("overlap_pairs", 1)
+		c.Count("overlap_pairs_narrow_query", 1)
 	case "overlaps":
 		l := cs.Layout
 		n := l.Stride()
@@ -486,8 +569,58 @@ func c08Run(c *engine.Ctx) {
 			c08Exec(c, c08Case{Mode: "overlaps", Layout: geom.XYM, BoxA: boxes3[i], BoxB: b}, nil)
 		}
 	})
+	// (c2) queries in a narrower layout than the boxes: XY queries on XY/XYZ/XYM/XYZM boxes whose
+	// extra dimensions hold an interval or nothing (+Inf,-Inf: a promoted dimension that never
+	// received an ordinate); XYZ queries on XYZ/XYZM boxes
+	ivs := []iv{{math.Inf(1), math.Inf(-1)}, {0, 1}, {1, 3}, {2, 2}}
+	extras := []iv{{math.Inf(1), math.Inf(-1)}, {5, 6}}
+	type nbox struct {
+		l geom.Layout
+		v []ref.F
+	}
+	mkBoxes := func(q geom.Layout, layouts []geom.Layout) []nbox {
+		var out []nbox
+		nq := q.Stride()
+		var rec func(l geom.Layout, lo, hi []ref.F, d int)
+		rec = func(l geom.Layout, lo, hi []ref.F, d int) {
+			if d == l.Stride() {
+				out = append(out, nbox{l, append(append([]ref.F{}, lo...), hi...)})
+				return
+			}
+			menu := ivs
+			if d >= nq {
+				menu = extras
+			}
+			for _, x := range menu {
+				rec(l, append(lo, ref.F(x[0])), append(hi, ref.F(x[1])), d+1)
+			}
+		}
+		for _, l := range layouts {
+			rec(l, nil, nil, 0)
+		}
+		return out
+	}
+	for _, fam := range []struct {
+		q  geom.Layout
+		ls []geom.Layout
+	}{{geom.XY, []geom.Layout{geom.XY, geom.XYZ, geom.XYM, geom.XYZM}}, {geom.XYZ, []geom.Layout{geom.XYZ, geom.XYZM}}} {
+		bs := mkBoxes(fam.q, fam.ls)
+		c.Parallel(len(bs), func(i int) {
+			for _, b := range bs {
+				c08Exec(c, c08Case{Mode: "overlaps-narrow", Layout: fam.q, LA: bs[i].l, BoxA: bs[i].v, LB: b.l, BoxB: b.v}, nil)
+			}
+		})
+	}
+	// (d) query / in-place change / query histories on live objects (incl. collections whose
+	// members are edited or pushed into after the collection was asked for its bounds)
+	hdepth := 3
+	if c.Thorough() {
+		hdepth = 4
+	}
+	c.Note("history_depth", hdepth)
+	exploreLive(c, "c08-history", "history", liveStarts(), hdepth, c08LiveQuery)
 	c.Count("traces_validated_against_impl", c.Get("evaluations"))
-	c.Count("distinct_nontrivial", c.Get("states")+c.Get("overlap_pairs"))
+	c.Count("distinct_nontrivial", c.Get("states")+c.Get("overlap_pairs")+c.Get("histories_ok"))
 	if c.Get("bbox_compared") == 0 {
 		c.Warn("vacuous: no GeoJSON bbox compared")
 	}
